@@ -55,7 +55,7 @@ theorem vsub_self (a : List ℝ) : vsub a a = List.replicate a.length 0 := by
   unfold vsub
   induction a with
   | nil => rfl
-  | cons x xs ih => simp [List.replicate_succ, ih]
+  | cons x xs ih => simp [List.replicate_succ]
 
 theorem normOf_replicate_zero (o : Norm) (n : Nat) : normOf o (List.replicate n (0 : ℝ)) = 0 := by
   cases o
@@ -217,7 +217,7 @@ theorem TopkSpec.values {lg : Bool} {vals : List ℝ} {kk : Nat} {idx : List Nat
   have hnd : (idx ++ rest).Nodup := by
     apply List.Nodup.append h.nodup (List.Nodup.filter _ List.nodup_range)
     intro a ha hb
-    simp only [hrest, List.mem_filter, decide_eq_true_eq] at hb
+    simp only [List.mem_filter, decide_eq_true_eq] at hb
     exact hb.2 ha
   have hperm : (idx ++ rest).Perm (List.range vals.length) := by
     rw [List.perm_ext_iff_of_nodup hnd List.nodup_range]
@@ -421,7 +421,7 @@ theorem indexCount_foldl (l : List Nat) (acc : Nat → ℝ) (j : Nat) :
     by_cases h : x = j
     · subst h; simp; ring
     · have h' : ¬ j = x := fun e => h e.symm
-      simp [List.count_cons, h, h']
+      simp [h, h']
 
 theorem indexCount_spec (g : Pt ℝ → Nat) (pts : List (Pt ℝ)) (j : Nat) :
     indexCount (α := ℝ) (pts.map g) j = ((pts.filter fun p => decide (g p = j)).length : ℝ) := by
